@@ -184,7 +184,9 @@ def run_tlc(module, cfg, *, workdir, files=None, workers=1, timeout=900, deadloc
         if dst.exists():
             dst.unlink()
         os.symlink(os.path.abspath(src), dst)
-    jopts = ["-XX:+UseParallelGC", f"-Xmx{heap}", "-Xss512m"]
+    # TLC leaves an (empty) tlc-<n> directory per run in java.io.tmpdir: keep it inside the job directory, not in /tmp
+    (d / "jtmp").mkdir(exist_ok=True)
+    jopts = ["-XX:+UseParallelGC", f"-Xmx{heap}", "-Xss512m", f"-Djava.io.tmpdir={d / 'jtmp'}"]
     if dfs:
         jopts.append("-Dtlc2.tool.queue.IStateQueue=StateDeque")
     cmd = ["java"] + jopts + ["-cp", TLA_CP, "tlc2.TLC", "-metadir", str(d / "states"),
